@@ -578,6 +578,7 @@ func assumptionsText() []string {
 		"A7 user callbacks satisfy their function-type contracts",
 		"A8 trusted contracts on dependencies (extern entries in specs/*.spec)",
 		"A9 int is 64 bit",
+		"A10 string sets (formatter, C09): strset / strnodup are abstract functions of the string heap and a slice header; what append, an empty slice and a store outside the slice do to them is stated by the engine from their definition, not proved; sslen / ssnth (ascending enumeration of a finite string set) are uninterpreted and tied to the code only by the trusted sort.Strings / slices.Sort contract; a pointer carried into a loop iteration is assumed distinct from the iteration's own allocations",
 	}
 }
 
